@@ -32,7 +32,7 @@ type Var struct {
 }
 
 type Op struct {
-	K      string         `json:"k"` // create update enable disable delete tcreate tupdate tdelete restart feed
+	K      string         `json:"k"` // create update enable disable delete tcreate tupdate tdelete restart feed bulk
 	ID     string         `json:"id,omitempty"`
 	NewID  string         `json:"new_id,omitempty"`
 	Tmpl   string         `json:"tmpl,omitempty"`
@@ -43,9 +43,44 @@ type Op struct {
 	// feed: DBRPs[0] is the db.rp the points are written to; N points of measurement 'boom'
 	// with one and the same time, followed by one later point
 	N int `json:"n,omitempty"`
+	// bulk: that many plain tasks (script sStream0, dbrps db.rp) created one request each, in
+	// this order
+	Bulk []BulkTask `json:"bulk,omitempty"`
+}
+
+// BulkTask is one task of a bulk: its id and whether it is created disabled.
+type BulkTask struct {
+	ID  string `json:"id"`
+	Dis bool   `json:"dis,omitempty"`
+}
+
+// bulkOps are the create requests a bulk stands for.
+func (o Op) bulkOps() []Op {
+	out := make([]Op, len(o.Bulk))
+	for i, b := range o.Bulk {
+		st := "enabled"
+		if b.Dis {
+			st = "disabled"
+		}
+		out[i] = Op{K: "create", ID: b.ID, Script: sStream0, DBRPs: []DBRP{{"db", "rp"}}, Status: st}
+	}
+	return out
 }
 
 func (o Op) String() string {
+	if o.K == "bulk" {
+		var dis []string
+		for _, b := range o.Bulk {
+			if b.Dis {
+				dis = append(dis, b.ID)
+			}
+		}
+		first, last := "", ""
+		if len(o.Bulk) > 0 {
+			first, last = o.Bulk[0].ID, o.Bulk[len(o.Bulk)-1].ID
+		}
+		return fmt.Sprintf("bulk: create %d plain tasks script=%s dbrps=[{db rp}] (%s .. %s), enabled except %v", len(o.Bulk), scriptName(sStream0), first, last, dis)
+	}
 	if o.K == "feed" && len(o.DBRPs) == 1 {
 		return fmt.Sprintf("feed %s.%s: %d points of measurement 'boom' with the same time, then a later one", o.DBRPs[0].DB, o.DBRPs[0].RP, o.N)
 	}
@@ -255,6 +290,14 @@ func (m *model) apply(op Op) (post *model, ok bool) {
 		}
 	case "delete":
 		delete(p.tasks, op.ID)
+	case "bulk":
+		for _, sub := range op.bulkOps() {
+			q, ok := p.apply(sub)
+			if !ok {
+				return p, false
+			}
+			p = q
+		}
 	case "feed":
 		if len(op.DBRPs) != 1 || op.N < 1 {
 			return p, false
